@@ -40,7 +40,7 @@ pub open spec fn step_fee_spec(remaining: int, fee_rate: int, target: int, is_in
     s.fee_amount as int == (if is_in && s.next_price as int != target { remaining - s.amount_in as int } else { fee_on(s.amount_in as int, fee_rate) })
 }
 
-//@ fn math/swap_math.rs compute_swap -> r
+//@ fn math/swap_math.rs compute_swap -> r canary
     requires
         price_ok(sqrt_price_current as int), price_ok(sqrt_price_target as int), fee_rate <= 100_000,
         // the target lies on the trade side of the current price (established by the swap loop, see swap_manager)
